@@ -112,6 +112,10 @@ func C07Spec(quick bool) Spec {
 				BuySpec{Seller: b.seller, K: b.k, Qty: q, DAR: false, FeeMode: "floor"}))
 		}
 	}
+	// orders of one batch in different markets (o4 uregen, o5 ibc), the second bid in the first order's denom
+	evs = append(evs, Buy(D, "o4+o5,second-bid-in-first-denom",
+		BuySpec{Seller: B, K: 2, Qty: "0.5", DAR: true, FeeMode: "large"},
+		BuySpec{Seller: C, K: 1, Qty: "0.5", DAR: true, BidDen: "uregen", BidAdj: 100, FeeMode: "large"}))
 	exp := map[string]bool{}
 	for _, e := range evs {
 		exp[e.Name] = true // any single buy may legitimately fail in some configuration; vacuity is judged on monitor counters instead
